@@ -152,6 +152,11 @@ theorem tr_alignGuardDrop {s s' : State} {n : Nat} (h : alignGuardDrop cfg s n =
   · exact Trail.refl _
   · exact Trail.setPos _ _ _
 
+theorem tr_alignChunkAt {s s' : State} {n : Nat} {st : Cur} (h : alignChunkAt cfg s n st = .ok s') : Trail s s' := by
+  rcases alignChunkAt_cases h with rfl | ⟨j, c, p, _, _, _, _, rfl⟩
+  · exact Trail.refl _
+  · exact Trail.setPos _ _ _
+
 /-! ### the closing tactic: normalise, then peel model-function calls off the right end -/
 
 syntax "tr_norm" : tactic
@@ -177,6 +182,7 @@ macro_rules
       | refine TR.step ?_ (tr_resetTo (by assumption))
       | refine TR.step ?_ (tr_alignTo (by assumption))
       | refine TR.step ?_ (tr_alignGuardDrop (by assumption))
+      | refine TR.step ?_ (tr_alignChunkAt (by assumption))
       | refine TR.step ?_ (tr_newChunk (by assumption))
       | refine TR.step ?_ (tr_newChunkForCapacity (by assumption))
       | refine TR.step ?_ (tr_inAnotherChunk (by assumption))
